@@ -11,8 +11,12 @@ Init == tid = 1
 Next ==
     \/ /\ tid <= N
        /\ LET c == Trace[tid]
-              want == Write(c.lib, c.fmt)
-              bad == IF c.raised THEN "raised"
+              want == IF c.may_raise THEN "" ELSE Write(c.lib, c.fmt)
+              \* c.may_raise: the library holds a non-string field value, or the warning template is one str.format rejects -
+              \* the writer may raise then, but the format object must still be as it was
+              bad == IF ~c.fmt_unchanged THEN "format_changed"
+                     ELSE IF c.raised THEN (IF c.may_raise THEN "" ELSE "raised")
+                     ELSE IF c.may_raise THEN ""
                      ELSE IF c.out # want THEN "text"
                      ELSE IF ~ColumnLaw(c.lib, c.fmt) \/ ~AutoAligned(c.lib, c.fmt) THEN "spec-lemma"
                      ELSE IF ~c.fmt_unchanged THEN "format_changed"
